@@ -196,7 +196,7 @@ Theorem C02_ref_runs_straight_line_blocks : forall s reg b reg' s', pblock s reg
 Proof. exact block_ref. Qed.
 Print Assumptions C02_ref_runs_straight_line_blocks.
 Theorem C02_vm_runs_straight_line_blocks : forall s reg b reg' s', pblock s reg b reg' s' ->
-  forall r c f rest below pre post, At s reg r c f rest below ->
+  forall r c f rest below pre post, At s reg r c f rest below -> Fresh c below ->
     f_code f = pre ++ compile_block b ++ post -> f_pos f = length pre ->
     exists r' c' f' rest', Steps r r' /\ At s' reg' r' c' f' rest' below /\
       moved f f' /\ f_pos f' = f_pos f + length (compile_block b) /\ Forall2 kept rest rest'.
@@ -237,7 +237,7 @@ Theorem C02_ref_runs_structured_blocks : forall s reg b reg' s', xblock s reg b 
 Proof. exact (proj2 (proj2 (proj2 ref_runs))). Qed.
 Print Assumptions C02_ref_runs_structured_blocks.
 Theorem C02_vm_runs_structured_blocks : forall s reg b reg' s', xblock s reg b reg' s' ->
-  forall r c f rest below pre post, AtM s reg r c f rest below ->
+  forall r c f rest below pre post, AtM s reg r c f rest below -> Fresh c below ->
     f_code f = pre ++ compile_block b ++ post -> f_pos f = length pre ->
     exists r' c' f' rest', Steps r r' /\ AtM s' reg' r' c' f' rest' below /\
       moved f f' /\ f_pos f' = f_pos f + length (compile_block b) /\ Forall2 kept rest rest'.
@@ -321,7 +321,7 @@ Theorem C02_ref_runs_blocks_with_exit : forall s reg b out s', zblock s reg b ou
 Proof. exact (proj1 (proj2 (proj2 (proj2 ref_runs_z)))). Qed.
 Print Assumptions C02_ref_runs_blocks_with_exit.
 Theorem C02_vm_runs_blocks_with_exit : forall s reg b out s', zblock s reg b out s' ->
-  forall r c f fc rest below pre, AtM s reg r c f (fc :: rest) below ->
+  forall r c f fc rest below pre, AtM s reg r c f (fc :: rest) below -> Fresh c below ->
     f_code f = pre ++ compile_block b -> f_pos f = length pre -> f_exit f = None -> f_base fc <= length below ->
     exists r' c' fc' rest', Steps r r' /\ Mach (pop_scope s') r' c' fc' rest' /\
       c_values c' = cv (val_of out) :: below /\ kept fc fc' /\ Forall2 kept rest rest'.
@@ -365,7 +365,7 @@ Proof. exact (proj1 (proj2 (proj2 (proj2 (proj2 ref_runs_z))))). Qed.
 Print Assumptions C02_ref_runs_loops.
 Theorem C02_vm_runs_loops : forall k s x rest0 i body acc acc' s', ziter k s (x :: rest0) i body acc acc' s' ->
   forall r c f fc frest below allarr b,
-    AtM (enter s (kvars k i x)) (match i with O => RNil | _ => RNone end) r c f (fc :: frest) below ->
+    AtM (enter s (kvars k i x)) (match i with O => RNil | _ => RNone end) r c f (fc :: frest) below -> Fresh c below ->
     f_code f = compile_block body -> f_pos f = 0 -> f_exit f = Some b -> kb k allarr i acc b -> f_die f = false ->
     skipn i allarr = x :: rest0 -> leaf_first body -> f_ns f = f_ns fc -> f_base fc <= length below ->
     exists r' c' fc' rest', Steps r r' /\ r' <> r /\ Mach s' r' c' fc' rest' /\ c_values c' = cv acc' :: below /\
@@ -429,7 +429,7 @@ Proof. exact (proj2 (proj2 (proj2 (proj2 (proj2 ref_runs_z))))). Qed.
 Print Assumptions C02_ref_runs_for.
 Theorem C02_vm_runs_for : forall var to st s x first body acc s', zfor var to st s x first body acc s' ->
   forall r c f fc frest below,
-    AtM (enter s [(lower var, RNum x)]) (if first then RNil else RNone) r c f (fc :: frest) below ->
+    AtM (enter s [(lower var, RNum x)]) (if first then RNil else RNone) r c f (fc :: frest) below -> Fresh c below ->
     f_code f = compile_block body -> f_pos f = 0 -> f_exit f = Some (BFor var to st) -> f_die f = false ->
     leaf_first body -> f_ns f = f_ns fc -> f_base fc <= length below ->
     exists r' c' fc' rest', Steps r r' /\ r' <> r /\ Mach s' r' c' fc' rest' /\ c_values c' = cv acc :: below /\
